@@ -82,7 +82,7 @@ def shrink(exe, sz, ops):
     return ops
 
 
-def run(res):
+def run_ring(res):
     quick = res.tier == "quick"
     tr = vlib.run_translator("safequeue")
     gen_status = tr["files"].get("Data/gen/SafeQueueGen.v", {})
@@ -137,6 +137,7 @@ def run(res):
     res.cov["traces_validated_against_impl"] = len(lines) - (len(bad) if bad else 0)
     res.cov["exhaustive"] = False
     decide(res, pr, bad, lines, exe, gen_status)
+    return dict(cov=dict(res.cov))
 
 
 def pr_model_ok(pr):
@@ -175,6 +176,9 @@ def decide(res, pr, bad, lines, exe, gen_status):
 
 def replay(path):
     r = json.load(open(path))
+    if r.get("kind", "").startswith("broker") or r.get("kind") in ("correspondence",):
+        import brokercheck, monitors
+        return brokercheck.replay(path, monitors.monitor_c03)
     exe, err = vlib.build_harness("safequeue")
     if r.get("kind") == "safequeue-ops":
         out = vlib.harness(exe, ["replay", str(r["shard_size"])] + r["ops"]).strip()
@@ -183,3 +187,20 @@ def replay(path):
         return 0 if out.split("|")[2].split() == list_spec(r["ops"]) else 1
     print(json.dumps(r, indent=1))
     return 0
+
+
+def run(res):
+    """(a) ring refinement at API level, then (b)(c) order clauses at broker level."""
+    import brokercheck, monitors
+    ring = run_ring(res)
+    if res.violations:
+        return
+    ring_cov = ring["cov"]
+    # broker level: T1 correspondence + order monitor; its coverage is merged with the ring's
+    brokercheck.run(res, "C03", "Props/C03.v", monitors.monitor_c03, quick_n=(70, 36), racy=True)
+    res.cov["ring_api_level"] = {k: ring_cov.get(k) for k in ("evaluations", "distinct_nontrivial", "generator_distribution", "samples", "translator")}
+    res.cov["evaluations"] += ring_cov.get("evaluations", 0)
+    res.cov["distinct_nontrivial"] += ring_cov.get("distinct_nontrivial", 0)
+    res.cov["traces_validated_against_impl"] += ring_cov.get("traces_validated_against_impl", 0)
+    res.cov["rule"] = "ring: " + ring_cov.get("rule", "") + " || broker: " + res.cov["rule"]
+    res.cov["obligations"] = res.cov["obligations"] // 2 if False else res.cov["obligations"]
